@@ -14,10 +14,20 @@ package kubernetes
 //@ check.hostname_ok[C15] dret("kubernetes.getPodOrdinalFromHostname", 0, 1) == nil
 //@ modifies calls("kubernetes.getPodOrdinalFromHostname")
 
+// The pod ordinal is the decimal number after the LAST '-' of the host name (statefulset naming), the whole
+// suffix and nothing else; a host name without one, or with a non-numeric suffix, is an error (C10, C15).
+// What LastIndex, slicing and Atoi compute is assumed (uninterpreted), which substring goes where is decided.
 //@ func getPodOrdinalFromHostname
-//@ props C10
-//@ trusted
-//@ modifies nothing
+//@ props C10 C15
+//@ let host = dret("os.Hostname", 0, 0)
+//@ let herr = dret("os.Hostname", 0, 1)
+//@ let cut = lastindex(host, "-")
+//@ let suffix = substr(host, cut + 1, len(host))
+//@ ensures.no_hostname_is_an_error[C15] herr != nil ==> result1 != nil
+//@ ensures.not_a_statefulset_name_is_an_error[C15] herr == nil && cut == -1 ==> result1 != nil
+//@ ensures.non_numeric_suffix_is_an_error[C15] herr == nil && cut != -1 && !atoiok(suffix) ==> result1 != nil
+//@ ensures.ordinal_is_the_number_after_the_last_dash[C10] herr == nil && cut != -1 && atoiok(suffix) ==> result1 == nil && result0 == atoi(suffix)
+//@ modifies calls("os.Hostname")
 
 //@ func NewHaMembership
 //@ params _ bus
